@@ -194,6 +194,42 @@ pub fn gen_case(rng: &mut Rng, corpus: &[(String, Vec<u8>)], idx: usize) -> CliC
         force = replace;
         threshold = None;
     }
+    // > 1 MB declaring a legacy code page that cannot decode one byte of the tail, with a threshold under which
+    // every page is given up on: whatever ends up reported, nothing may be written that is not a strict decode
+    if idx == 7 || idx % 97 == 29 {
+        let (content, enc) = large_declared_bad_tail(rng);
+        let name = format!("declared-{}.xml", enc);
+        files = vec![(name.clone(), content)];
+        args_files = vec![name];
+        normalize = true;
+        replace = idx % 2 == 0;
+        force = replace;
+        alternatives = false;
+        minimal = false;
+        threshold = Some(if idx % 4 != 0 { "0.0".to_string() } else { "0.001".to_string() });
+    }
+    // > 1 MB in a legacy single-byte page that several pages read alike (no merging of look-alikes above the
+    // limit): the report must still be headed by the library's best match
+    if idx == 9 || idx % 97 == 61 {
+        let (name, enc) = *rng.pick(&[("french", "iso-8859-1"), ("german", "iso-8859-1"), ("spanish", "windows-1252")]);
+        let base = TEXTS.iter().find(|(n, _)| *n == name).map(|x| x.1).unwrap_or(TEXTS[0].1);
+        let unit = enc_bytes_lossy(&stretch(rng, base, 2500), enc);
+        let mut content: Vec<u8> = Vec::with_capacity(1_010_000);
+        let len = 1_000_001 + rng.below(4000);
+        while content.len() < len {
+            content.extend_from_slice(&unit);
+        }
+        content.truncate(len);
+        let fname = format!("big-{}.txt", enc);
+        files = vec![(fname.clone(), content)];
+        args_files = vec![fname];
+        normalize = false;
+        replace = false;
+        force = false;
+        alternatives = idx % 3 == 1;
+        minimal = idx % 3 == 2;
+        threshold = None;
+    }
     CliCase { files, args_files, alternatives, normalize, minimal, replace, force, threshold }
 }
 
